@@ -244,7 +244,21 @@ func c17Outbound(c *vlib.Ctx) {
 			got = got[:0]
 			mu.Unlock()
 			ctx, cancel := context.WithTimeout(context.Background(), 5*time.Second)
-			result := d.Deliver(ctx, dispatcher.Delivery{ID: "m", Method: method, URL: tc.URL, Body: body, Sign: tc.SignHMAC, Header: http.Header{"X-Orig": {"1"}}})
+			// the stored event may itself carry headers named like the signing headers
+			// (a chained gateway, or inbound and outbound HMAC with the same names):
+			// the receiver must still find exactly the gateway's values
+			evHdr := http.Header{"X-Orig": {"1"}}
+			collide := r.Chance(0.35)
+			if collide {
+				if r.Bool() {
+					evHdr.Set(sigH, "00stale-signature-from-the-event")
+				}
+				if r.Bool() || len(evHdr) == 1 {
+					evHdr.Set(tsH, "1500000000")
+				}
+				c.Count("deliveries_with_colliding_event_headers", 1)
+			}
+			result := d.Deliver(ctx, dispatcher.Delivery{ID: "m", Method: method, URL: tc.URL, Body: body, Sign: tc.SignHMAC, Header: evHdr})
 			cancel()
 			mu.Lock()
 			reqs := append([]received(nil), got...)
@@ -287,6 +301,10 @@ func c17Outbound(c *vlib.Ctx) {
 			gotTS, gotSig := rq.Header.Get(tsH), rq.Header.Get(sigH)
 			wantSig := signOutbound(want.Value, rq.Method, escPath, ts, rq.Body)
 			c.Distinct("nontrivial", fmt.Sprintf("signed:%s:mode=%s:versions=%d:inline=%v", pathClass(path), mode, len(vs), inline))
+			if nt, ns := len(rq.Header.Values(tsH)), len(rq.Header.Values(sigH)); nt != 1 || ns != 1 {
+				c.Violation(vlib.Signature{"class": "signing_header_not_single_valued", "collision": fmt.Sprint(collide)},
+					fmt.Sprintf("the request carries %d values of %s and %d of %s (event headers collided: %v): %q / %q", nt, tsH, ns, sigH, collide, rq.Header.Values(tsH), rq.Header.Values(sigH)), wit)
+			}
 			if gotTS != ts {
 				c.Violation(vlib.Signature{"class": "timestamp_header_wrong"}, fmt.Sprintf("timestamp header %q = %q, expected %s", tsH, gotTS, ts), wit)
 			}
@@ -427,7 +445,7 @@ func signerClass(id string) string {
 
 // C17: HMAC signing and secret rotation windows.
 func C17(c *vlib.Ctx) {
-	c.Rule("outbound: generated secret-version sets (1-5 versions, overlapping/adjacent/identical windows, bounds with fractional seconds, raw/env/file refs incl. unloadable ones), both selection modes and inline secrets, custom header names, compiled by config.Compile and mapped as `run` does; the real HTTPDeliverer (injected Now at valid_from/valid_until -1s/0/+1s/-1ns and far outside) posts to a local server and the signature is recomputed over the request as received (method, path from the request line, body bytes read) with the independently selected version; no valid/loadable version => zero requests. inbound: the production loadAuth wiring with tolerance 2000000h, requests signed with every version/unknown/inline secret at the window boundaries. distinct_nontrivial = distinct (path class, selection mode, version count, inline) and (signer class, validity, status) classes.")
+	c.Rule("outbound: generated secret-version sets (1-5 versions, overlapping/adjacent/identical windows, bounds with fractional seconds, raw/env/file refs incl. unloadable ones), both selection modes and inline secrets, custom header names, compiled by config.Compile and mapped as `run` does; the real HTTPDeliverer (injected Now at valid_from/valid_until -1s/0/+1s/-1ns and far outside) posts to a local server (a third of the deliveries carry event headers named like the configured signing headers, with stale values) and the signature is recomputed over the request as received (method, path from the request line, body bytes read) with the independently selected version; no valid/loadable version => zero requests. inbound: the production loadAuth wiring with tolerance 2000000h, requests signed with every version/unknown/inline secret at the window boundaries. distinct_nontrivial = distinct (path class, selection mode, version count, inline) and (signer class, validity, status) classes.")
 	c.Assume("exact valid_from ties are broken by the smallest id (the ordering secrets.Set.ValidAt documents; the statement only says 'ties by id')")
 	c17Outbound(c)
 	c17Inbound(c)
